@@ -300,6 +300,12 @@ var arrFilters = []filt{
 	}},
 	{"map", func(g *Gen, sc scope) string { return ": " + quote(pick(g.r, []string{"name", "n", "a"})) }},
 	{"sort", func(g *Gen, sc scope) string { return ": " + quote(pick(g.r, []string{"name", "n"})) }},
+	{"hwhere", func(g *Gen, sc scope) string {
+		if g.r.Chance(0.5) {
+			return `: "x", cond` // the expression text comes from a binding
+		}
+		return `: "x", ` + quote(pick(g.r, []string{"x", "x > 2", "x == 1", "x.n", "x contains 'a'"}))
+	}},
 }
 
 // array -> scalar
@@ -350,7 +356,7 @@ func (g *Gen) chain(base string, fs []filt, sc scope, max int) string {
 		if len(g.focus) > 0 && g.r.Chance(0.5) {
 			f = pick(g.r, g.focus) // may be ill-typed for this input: an error is a result too
 		}
-		if g.NoCustom && f.name == "hx" {
+		if g.NoCustom && (f.name == "hx" || f.name == "hwhere") {
 			continue
 		}
 		g.use("filter:" + f.name)
@@ -686,6 +692,18 @@ func (g *Gen) node(sc *scope, depth int) *TNode {
 		inc := &TNode{K: "tag", S: "include " + pick(g.r, g.incArgs)}
 		if wrapIncludes && g.feat["trim"] {
 			inc.TL, inc.TR = g.r.Chance(0.3), g.r.Chance(0.3) // only visible in include modes 1 and 2
+		}
+		if wrapIncludes && g.r.Chance(0.3) {
+			// silent neighbours whose trim markers act on the included output itself
+			seq := []*TNode{}
+			if g.r.Chance(0.7) {
+				seq = append(seq, &TNode{K: "tag", S: "assign q1 = 1", TR: true})
+			}
+			seq = append(seq, inc)
+			if g.r.Chance(0.7) {
+				seq = append(seq, &TNode{K: "tag", S: "assign q2 = 2", TL: true})
+			}
+			return &TNode{K: "block", S: "if true", C: seq}
 		}
 		return inc
 	case 14:
